@@ -633,6 +633,23 @@ func (h *histRun) exec() {
 
 func (h *histRun) monitorStore(opIdx, from int) {
 	w := h.w
+	// nothing is ever deleted, and every entry of every replica has its block (and the blocks of its
+	// predecessors and references) in the store
+	if len(w.dag.removed) > 0 {
+		h.fail("C17", "store-only-grows", "C17:block-removed", "a block was removed from the store: "+w.dag.removed[0].String(), opIdx)
+	}
+	for _, rep := range w.reps {
+		for _, e := range rep.log.GetEntries().Slice() {
+			if !w.dag.has(e.GetHash()) {
+				h.fail("C17", "entries-stored", "C17:entry-block-missing", "the block of entry "+e.GetHash().String()+" held by a replica is not in the store", opIdx)
+			}
+			for _, n := range append(append([]cid.Cid{}, e.GetNext()...), e.GetRefs()...) {
+				if !w.dag.has(n) {
+					h.fail("C17", "store-closed", "C17:dangling-link", "link "+n.String()+" of a stored entry is not in the store", opIdx)
+				}
+			}
+		}
+	}
 	// after every single block write the store must be causally closed: check each new block
 	// against the blocks written before it
 	present := map[string]bool{}
